@@ -466,9 +466,9 @@ impl Monitor {
             }
             (Act::RemoveBucket { id }, true) => {
                 self.hit("remove_bucket_ok");
-                if pre.bucket_by_id(*id).map_or(false, |b| b.fee.is_some()) {
+                if pre.bucket_at(&a.sender, *id).map_or(false, |b| b.fee.is_some()) {
                     self.hit("remove_bucket_with_fee");
-                    if let Some(b) = pre.bucket_by_id(*id) {
+                    if let Some(b) = pre.bucket_at(&a.sender, *id) {
                         if b.fee.as_ref().map(|f| f.0.as_str()) != Some(pre.fee_denom()) {
                             self.hit("fee_paid_after_denom_switch");
                         }
@@ -1075,7 +1075,9 @@ fn compare_misc(pre: &Obs, post: &Obs, eff: &Effect, a: &Action, names: &Names, 
         let mut all: BTreeSet<String> = denoms.iter().map(|d| d.to_string()).collect();
         all.extend(eq.keys().cloned());
         let l_after = post.listing_by_id(*lid).and_then(|l| l.fee.clone());
-        let b_after = post.bucket_by_id(*bid).and_then(|b| b.fee.clone());
+        // the bucket is looked up under the key the swap prescribes (ids may be ambiguous if C09 is broken)
+        let seller = pre.listing_by_id(*lid).map(|l| l.key_owner.clone()).unwrap_or_default();
+        let b_after = post.bucket_at(&seller, *bid).and_then(|b| b.fee.clone());
         for x in [&l_after, &b_after].into_iter().flatten() {
             all.insert(x.0.clone());
         }
@@ -1122,7 +1124,7 @@ fn compare_misc(pre: &Obs, post: &Obs, eff: &Effect, a: &Action, names: &Names, 
             }
         }
         if let Some(x) = &b_after {
-            let before = pre.bucket_by_id(*bid).and_then(|b| b.fee.clone());
+            let before = pre.bucket_at(&a.sender, *bid).and_then(|b| b.fee.clone());
             let new = eff.fee_new.1.clone();
             let mut allowed: BTreeMap<String, u128> = BTreeMap::new();
             for y in [&before, &new].into_iter().flatten() {
@@ -1352,10 +1354,11 @@ fn target_class(pre: &Obs, a: &Action) -> u64 {
         Act::AddToListing { id, .. } | Act::ChangeAsk { id, .. } | Act::Finalize { id, .. } | Act::DeleteListing { id } | Act::Withdraw { id } => {
             (lclass(pre.listing_by_id(*id)), 0)
         }
-        Act::CreateBucket { id, .. } | Act::AddToBucket { id, .. } | Act::RemoveBucket { id } => (0, bclass(pre.bucket_by_id(*id))),
+        Act::CreateBucket { id, .. } => (0, bclass(pre.bucket_by_id(*id))),
+        Act::AddToBucket { id, .. } | Act::RemoveBucket { id } => (0, bclass(pre.bucket_at(&a.sender, *id).or(pre.bucket_by_id(*id)))),
         Act::Buy { lid, bid } => {
             let l = pre.listing_by_id(*lid);
-            let b = pre.bucket_by_id(*bid);
+            let b = pre.bucket_at(&a.sender, *bid).or(pre.bucket_by_id(*bid));
             let mut extra = 0u32;
             if let (Some(l), Some(b)) = (l, b) {
                 let ss: u64 = spec::side_royalties(&l.goods, &pre.registry).iter().map(|(_, e)| e.bps).sum();
